@@ -28,15 +28,23 @@ var verifFmtSeeds = []string{
 	"package p\n\ntempl i(xs []string) {§<div>{{ first := xs[0] }}{ first }</div>§}\n",
 	// 8: attribute expression ending in a block comment, expression with trailing comment
 	"package p\n\ntempl j(c string) {§<div class={ \"a\", c /* extra */ }>{ c }</div>§}\n",
+	// 9: constant attribute values ('¶' = A symbolic bytes over the alphabet of character
+	// references and quotes), double-quoted, single-quoted and unquoted
+	"package p\n\ntempl k() {\n\t<a title=\"¶\">t</a> <a title='¶'>u</a>\n}\n",
+	// 10: else-if chains with branches that may be empty
+	"package p\n\ntempl l(a, b, c bool) {\n\tif a {\n§<i>A</i>§} else if b {\n§} else if c {\n§<i>C</i>§} else {\n§<i>D</i>§}\n}\n",
 }
 
-// verifFill replaces the markers of a seed: gap g (in order) by gaps[g], text marker by text.
-func verifFill(seed string, gaps []string, text string) string {
+// verifFill replaces the markers of a seed: gap g (in order) by gaps[g], text marker by text,
+// attribute-value marker by attr.
+func verifFill(seed string, gaps []string, text, attr string) string {
 	out := make([]byte, 0, len(seed)+8)
 	g := 0
 	for i := 0; i < len(seed); i++ {
-		if seed[i] == 0xC2 && i+1 < len(seed) && (seed[i+1] == 0xA7 || seed[i+1] == 0xA4) {
-			if seed[i+1] == 0xA7 {
+		if seed[i] == 0xC2 && i+1 < len(seed) && (seed[i+1] == 0xA7 || seed[i+1] == 0xA4 || seed[i+1] == 0xB6) {
+			if seed[i+1] == 0xB6 {
+				out = append(out, attr...)
+			} else if seed[i+1] == 0xA7 {
 				if g < len(gaps) {
 					out = append(out, gaps[g]...)
 				}
@@ -52,6 +60,23 @@ func verifFill(seed string, gaps []string, text string) string {
 	return string(out)
 }
 
+// the bytes character references and quoting are made of
+var verifAttrAlphabet = func() (t [256]bool) {
+	for _, c := range []byte("&#;349\"'ax") {
+		t[c] = true
+	}
+	return
+}()
+
+func verifHasAttrMarker(seed string) bool {
+	for i := 0; i+1 < len(seed); i++ {
+		if seed[i] == 0xC2 && seed[i+1] == 0xB6 {
+			return true
+		}
+	}
+	return false
+}
+
 func verifCountGaps(seed string) int {
 	n := 0
 	for i := 0; i+1 < len(seed); i++ {
@@ -65,7 +90,7 @@ func verifCountGaps(seed string) int {
 func verifWS(name string, max int) string {
 	s := symString(name, max)
 	for i := 0; i < len(s); i++ {
-		symAssume(s[i] == ' ' || s[i] == '\n' || s[i] == '\t')
+		symAssume(s[i] == ' ' || s[i] == '\n' || s[i] == '\t' || s[i] == '\r')
 	}
 	return s
 }
@@ -92,7 +117,14 @@ func verifSymbolicInput() string {
 		gaps[first+k] = verifWS("gap"+string(rune('0'+k)), 2)
 	}
 	text := symString("text", symParam("T"))
-	return verifFill(seed, gaps, text)
+	attr := ""
+	if verifHasAttrMarker(seed) {
+		attr = symString("attr", symParam("A"))
+		for i := 0; i < len(attr); i++ {
+			symAssume(verifAttrAlphabet[attr[i]])
+		}
+	}
+	return verifFill(seed, gaps, text, attr)
 }
 
 func verifFormat(src string) (string, error) {
@@ -146,6 +178,82 @@ func verifInlineNonTrailer(nodes []parser.Node) bool {
 			}
 		case parser.TemplElementExpression:
 			found = verifInlineNonTrailer(n.Children) || found
+		}
+	}
+	return found
+}
+
+// verifFileHasAttrLineBreak: some constant attribute value contains a line break (in the seeds
+// only a character reference can put one there) - the class of the known finding
+// C09-line-break-from-character-reference-in-constant-attribute.
+func verifFileHasAttrLineBreak(src string) bool {
+	tf, err := parser.ParseString(src)
+	if err != nil {
+		return false
+	}
+	found := false
+	for _, n := range tf.Nodes {
+		if t, ok := n.(parser.HTMLTemplate); ok {
+			for _, c := range t.Children {
+				if e, ok := c.(parser.Element); ok {
+					for _, a := range e.Attributes {
+						if ca, ok := a.(parser.ConstantAttribute); ok {
+							for i := 0; i < len(ca.Value); i++ {
+								if ca.Value[i] == '\n' {
+									found = true
+								}
+							}
+						}
+					}
+				}
+			}
+		}
+	}
+	return found
+}
+
+// verifTextWithCR: some text node contains a carriage return (a lone CR does not end a text
+// run, CR LF does) - the class of the known finding C09-text-ending-in-lone-carriage-return.
+func verifTextWithCR(nodes []parser.Node) bool {
+	found := false
+	for _, n := range nodes {
+		switch n := n.(type) {
+		case parser.Text:
+			for i := 0; i < len(n.Value); i++ {
+				if n.Value[i] == '\r' {
+					found = true
+				}
+			}
+		case parser.Element:
+			found = verifTextWithCR(n.Children) || found
+		case parser.IfExpression:
+			found = verifTextWithCR(n.Then) || found
+			for _, ei := range n.ElseIfs {
+				found = verifTextWithCR(ei.Then) || found
+			}
+			found = verifTextWithCR(n.Else) || found
+		case parser.ForExpression:
+			found = verifTextWithCR(n.Children) || found
+		case parser.SwitchExpression:
+			for _, c := range n.Cases {
+				found = verifTextWithCR(c.Children) || found
+			}
+		case parser.TemplElementExpression:
+			found = verifTextWithCR(n.Children) || found
+		}
+	}
+	return found
+}
+
+func verifFileHasTextWithCR(src string) bool {
+	tf, err := parser.ParseString(src)
+	if err != nil {
+		return false
+	}
+	found := false
+	for _, n := range tf.Nodes {
+		if t, ok := n.(parser.HTMLTemplate); ok {
+			found = verifTextWithCR(t.Children) || found
 		}
 	}
 	return found
